@@ -175,6 +175,11 @@ func runC12(ctx *core.Ctx) {
 		if r.Intn(3) == 0 {
 			r.Shuffle(len(ops)-1, func(i, j int) { ops[1+i], ops[1+j] = ops[1+j], ops[1+i] })
 		}
+		// script is one of the five elements; it only exists under AllowUnsafe(true)
+		if r.Intn(6) == 0 {
+			ops = append(ops, spec.Op{K: spec.KUnsafe, B: true}, spec.Op{K: spec.KAllowElements, Names: []string{"script"}}, spec.Op{K: spec.KAllowAttrs, Attrs: []string{"src", "x", "crossorigin"}, Scope: "els", Names: []string{"script"}})
+			els = append(els, "script")
+		}
 		// the zero value of Policy is a valid starting point too (no default tables)
 		if r.Intn(6) == 0 {
 			ops[0] = spec.Op{K: spec.KZero}
@@ -185,6 +190,9 @@ func runC12(ctx *core.Ctx) {
 		lc["policies:base="+ops[0].K]++
 		for i := 0; i < perPol; i++ {
 			el := []string{"audio", "img", "link", "video", "iframe", "iframe", "iframe", "source", "a"}[r.Intn(9)]
+			if els[len(els)-1] == "script" && r.Intn(4) == 0 {
+				el = "script"
+			}
 			nd := &gen.Node{Name: el, NoEnd: r.Intn(2) == 0}
 			if r.Intn(5) > 0 {
 				k := "src"
